@@ -57,6 +57,7 @@ import JdProofs.MergePrecision
 import JdProofs.KeysMergeB
 import JdProofs.KeysMerge
 import JdProps.C09Text
+import JdProps.C01Void
 
 namespace Jd.Props.C11
 open Jd Jd.Spec Jd.Merge
